@@ -79,8 +79,11 @@ class Cover {
     }
 
     void process_direction(unsigned long now) {
-      if (m_direction != m_previous_direction) {
-        switch (m_direction) {
+      // Read the direction only once. The ISR can set it to STOP while we are waiting below and
+      // this change must be seen during the next call.
+      const Direction direction = m_direction;
+      if (direction != m_previous_direction) {
+        switch (direction) {
           case Direction::OPEN:
             m_running_direction = Direction::OPEN;
             digitalWrite(pins.cover_close, HIGH);
@@ -112,7 +115,7 @@ class Cover {
             m_do_stop_time = now;
             break;
         }
-        m_previous_direction = m_direction;
+        m_previous_direction = direction;
       }
     }
 
